@@ -209,6 +209,9 @@ fn keyer_for(chunked: bool, all: bool) -> impl Fn(&Failure, &Judged) -> String {
     }
 }
 
+/// clauses of the shared feature product (props/product.rs) that belong to this property
+const PRODUCT_CLAUSES: &[&str] = &["delivered-count", "head-method", "head-target", "head-version", "head-headers"];
+
 impl Check for C09 {
     fn id(&self) -> &'static str {
         "C09"
@@ -217,24 +220,34 @@ impl Check for C09 {
         "exploration"
     }
     fn n_items(&self, tier: Tier) -> u64 {
-        cases(tier).len() as u64
+        cases(tier).len() as u64 + crate::props::product::n_items(tier)
     }
     fn chunk(&self, _tier: Tier) -> u64 {
         16
     }
     fn run_item(&self, idx: u64, tier: Tier, acc: &mut Acc) {
+        let base = cases(tier).len() as u64;
+        if idx >= base {
+            crate::props::product::run_item(idx - base, tier, acc, PRODUCT_CLAUSES);
+            return;
+        }
         let c = &cases(tier)[idx as usize];
         let sc = scenario(c);
         let k = keyer_for(c.chunked, c.consumed_all);
         check_scenario(&sc, acc, &JudgeOpts::default(), !c.consumed_all, &k, &|_| vec![]);
     }
     fn rule(&self, tier: Tier) -> String {
-        format!(
+        let own = format!(
             "first request with body framing {:?} x consumption {{0, 1, len/2, len-1, len bytes without seeing end-of-stream, len/2 or len bytes followed by a read with an empty buffer, to end-of-stream}} with read sizes 1/7/4096 x finish {{respond, drop, into_writer raw response, drop during a handler panic}} x following pipelined requests {:?}; plus bodies of 1 MiB+100 / 2 MiB+1 (declared) and 1.5 MiB (chunked by 65536){} really sent, with 0 / 1 / half / all-but-1 MiB+1 bytes read, answered or dropped, then a GET; unread bodies (declared 5 / 1025, chunked 1025, Expect) after a history of 64 / 100 / 1024 (thorough: 19 lengths from 63 to 4097) answered exchanges; {} conversations; the requests delivered after the body-bearing one must be exactly the following ones (heads and bodies), each answered, no 400; non-trivial = the body was not read to its end",
             framings(tier).iter().map(|f| f.0.clone()).collect::<Vec<_>>(), followers(tier).iter().map(|f| f.0).collect::<Vec<_>>(), if deep(tier) { " and 5 MiB / 2 MiB chunked by 8192" } else { "" }, cases(tier).len()
-        )
+        );
+        format!("{} || {} {:?}", own, crate::props::product::RULE, PRODUCT_CLAUSES)
     }
     fn replay(&self, replay: &Value, acc: &mut Acc) {
+        if crate::props::product::is_product_replay(replay) {
+            crate::props::product::replay(replay, acc, PRODUCT_CLAUSES);
+            return;
+        }
         let sc = scenario_from_json(&replay["scenario"]);
         let cs = client_stream(&sc, 0);
         let chunked = cs.bytes.windows(26).any(|w| w.eq_ignore_ascii_case(b"Transfer-Encoding: chunked"));
